@@ -21,10 +21,12 @@
 (* pkg/obitools/obirefidx IndexSequence): candidates in decreasing order   *)
 (* of shared 4-mers, running best distance, pruning threshold "wordmin",   *)
 (* early break, one-difference shortcut once the best distance is <= 1.    *)
-(* Their parameter  fixed  selects the length the threshold is computed    *)
-(* from: the query alone (sound, by Lemma4) or, as the code was written,   *)
-(* the query and ONE particular reference (the current best in             *)
-(* FindClosests, the current candidate in IndexSequence).                  *)
+(* Their parameter  fixed  selects the repaired or the original pruning:   *)
+(* FindClosests stops at the first candidate below a threshold computed    *)
+(* from the length of the query alone (sound, by Lemma4) or, as the code   *)
+(* was written, of the query and the current best reference; IndexSequence *)
+(* computes a threshold that is valid for the current candidate only and   *)
+(* skips that candidate (sound) or, as written, stops the scan there.      *)
 (*                                                                         *)
 (* References are addressed by their position in the sequence refs         *)
 (* (duplicates are allowed and are different references).  Taxa are node   *)
@@ -183,11 +185,13 @@ IdxProbe(r, c, d, mini) ==
   ELSE IF mini <= 1 THEN D1Ref(r, c)
   ELSE IF d <= mini THEN d ELSE -1
 
+(* a candidate within mini differences shares at least max(|r|, |c|) - 3 - 4 mini words with r: a bound that  *)
+(* holds for THAT candidate.  fixed: the candidate is skipped; as written: the scan of this ancestor stops.    *)
 IdxStep(refs, k, dvk, cwk, fixed, acc, i) ==          \* acc = [mini, wordmin, stop]
   IF acc.stop THEN acc
   ELSE LET wm == IF acc.mini = -1 THEN acc.wordmin
-                 ELSE (IF fixed THEN Len(refs[k]) ELSE MaxI(Len(refs[k]), Len(refs[i]))) - 3 - 4 * acc.mini
-       IN IF cwk[i] < wm THEN [acc EXCEPT !.wordmin = wm, !.stop = TRUE]
+                 ELSE MaxI(Len(refs[k]), Len(refs[i])) - 3 - 4 * acc.mini
+       IN IF cwk[i] < wm THEN [acc EXCEPT !.wordmin = wm, !.stop = ~fixed]
           ELSE LET e == IdxProbe(refs[k], refs[i], dvk[i], acc.mini)
                IN [mini    |-> IF e >= 0 /\ (acc.mini = -1 \/ e < acc.mini) THEN e ELSE acc.mini,
                    wordmin |-> wm, stop |-> FALSE]
